@@ -135,12 +135,26 @@ def names_used(stmts) -> set[str]:
 class Eraser:
     def __init__(self, inert_methods: set[str]):
         self.inert_methods = inert_methods
+        self.offenders: list[str] = []
+
+    def args_harmless(self, call: ast.Call) -> bool:
+        """Everything evaluated to produce a log line must be unable to fail or to change state: only the whitelisted
+        conversions (repr/str/join/len/format and showpeek) may be called."""
+        for a in list(call.args) + [k.value for k in call.keywords]:
+            for n in ast.walk(a):
+                if isinstance(n, ast.Call):
+                    f = n.func
+                    name = f.id if isinstance(f, ast.Name) else (f.attr if isinstance(f, ast.Attribute) else "")
+                    if name not in PURE_IN_LOGGING:
+                        self.offenders.append(name or norm_stmt(f))
+                        return False
+        return True
 
     def is_print_stmt(self, st) -> bool:
         if isinstance(st, ast.Expr) and isinstance(st.value, ast.Call):
             f = st.value.func
             if isinstance(f, ast.Name) and f.id in INERT_CALLS:
-                return True
+                return self.args_harmless(st.value)
             if isinstance(f, ast.Attribute) and norm_stmt(f.value) == "self" and f.attr in self.inert_methods:
                 return True
         if isinstance(st, ast.AugAssign) and norm_stmt(st.target) == "self._level":
@@ -398,10 +412,12 @@ def rule_v1(chk: Check, ix: Index):
         # report the first differing line
         a, b = dump(r0).splitlines(), dump(r1).splitlines()
         diff = next(((x, y) for x, y in zip(a + [""] * len(b), b + [""] * len(a)) if x != y), ("", ""))
+        extra = f" (the trace calls `{eraser.offenders[0]}`, which is not one of the harmless conversions, so the log line itself can fail " \
+                f"or change state)" if eraser.offenders else ""
         chk.fail("V1-verbose-erasure", key, f.where,
                  f"after substituting the flag and erasing print-only statements the verbose and non-verbose versions of `{q}` are "
                  f"different programs: non-verbose has `{diff[0].strip()[:70]}` where verbose has `{diff[1].strip()[:70]}` — turning "
-                 f"tracing on changes what the parser does")
+                 f"tracing on changes what the parser does{extra}")
     chk.floor("V1-verbose-erasure", 5)
     # the flag is only ever read, stored by the constructors and forwarded by the entry points
     for q, f in sorted(ix.funcs.items()):
